@@ -24,6 +24,8 @@ CLAIMED = {
          "DESIGN.md 5/C06", "definitional + double-counting + filter exactness theorems (Coq) + query correspondence + definition/liveness oracle"),
  "C16": ("Theorems, for all n, m and sizes (no bound): C16_comb_decoder_spec (_index_to_edge_comb(index, n, m) is the index-th m-combination of range(n) in lexicographic order; the two nested loops are transcribed with fuel n), C16_comb_bijection, C16_prod_bijection (base-n digits), C16_partition_bijection (mixed radix), C16_skip_sampling and C16_sampled_edges_distinct (for every sequence of geometric draws >= 1 the visited indices, hence the sampled edges, are pairwise distinct and in range). Correspondence: the three decoders exhaustively on a grid; uniform_erdos_renyi_hypergraph and fast_random_hypergraph re-run in the model from the recorded geometric draws. PARTIAL: the other generator contracts (node sets, sizes, p in {0,1}, complete hypergraphs, configuration-model degrees, lattice/star/sunflower shapes, closure of generated complexes, flag complexes = cliques) are decided by the oracle on parameter grids, not by theorems.",
          "DESIGN.md 5/C16", "unranking theorems (Coq) + exhaustive decoder tables + generator replay from recorded draws + contract oracle"),
+ "C13": ("Theorems: C13_double_boundary_zero (for every simplex and every candidate face the signed count of the two-step deletions vanishes, by induction on the simplex), C13_dd_zero (every entry of B_k B_{k+1} is zero for every orientation assignment, given that no simplex is listed twice and every facet is listed - what C03 proves of simplicial complexes), C13_entry_formula. Correspondence: every boundary matrix B_0..B_{dim+1} with its index maps and every Hodge Laplacian of generated complexes (int/string labels, explicit ids, random orientations) compared exactly with the model. PARTIAL: symmetry/positive semidefiniteness of the Hodge Laplacians and dim ker L0 = number of components are checked by the oracle (numpy), not proved; the link from C03's invariant to the two hypotheses of C13_dd_zero goes through the canonical sorting of member lists, which is not proved.",
+         "DESIGN.md 5/C13", "chain-complex identity (Coq, induction on the simplex) + exact matrix correspondence + numerical oracle"),
 }
 NOTE = ("trusted: Coq 8.16.1 kernel and vm_compute; no axioms (Print Assumptions: Closed under the global context); "
         "harness generators/serialiser/observation; CPython containers and numeric libraries are environment "
